@@ -89,12 +89,14 @@ def parseWorld (j : Json) : R World := do
 def parseVariant (j : Json) : Variant :=
   let open_ : List String := match j.getObjVal? "open" with
     | .ok v => (strList v).toOption.getD []
-    | .error _ => ["F1", "F2", "F3", "F4", "F7", "F27", "F63"]
+    | .error _ => ["F1", "F2", "F3", "F4", "F7", "F27", "F63", "F64", "F65"]
   { f1_exhaustiveSatisfies := open_.contains "F1", f2_propagationSkipped := open_.contains "F2",
     f3_fixNotVerified := open_.contains "F3", f4_inRangeNotSelfVerified := open_.contains "F4",
     f7_ghPredicateNotValidated := open_.contains "F7",
     f27_mergeableNeedsThreshold2 := open_.contains "F27",
-    f63_trustExhaustive := open_.contains "F63" }
+    f63_trustExhaustive := open_.contains "F63",
+    f64_shortcutSkipsGlobals := open_.contains "F64",
+    f65_globalFileRuleIgnored := open_.contains "F65" }
 
 structure Query where
   mode : String
